@@ -4,6 +4,7 @@
    doc <Class> <name>                    -> the documented table's verdict
    forprecip <Class>                     -> none | silent | experimental | valueError
    names                                 -> the 14 names
+   fields <Class>                        -> name~default~validators~converter;…
    field <Class> <field> <val>           -> ok <val> | error <Class> | nofield      (convert + validate one value)
    apply <Class> <rederive> <base> <assignments>   -> error <cls> | ok <active derived attributes> | <fields>
                                            base / assignments: `k=v;k=v` (`-` = none); assignments are applied after construction
@@ -63,6 +64,15 @@ def showView (r : Except String View) : String :=
   | .ok (f, l) => "ok " ++ (if l.isEmpty then "-" else ";".intercalate (l.map showBuilt)) ++ " | " ++
       (if f.isEmpty then "-" else ";".intercalate (f.map (fun p => p.1 ++ "=" ++ showVal p.2)))
 
+def showValidator : Validator → String
+  | .instBool => "instBool" | .instInt => "instInt" | .instFloat => "instFloat" | .instStr => "instStr" | .instDict => "instDict"
+  | .instFloatOrNone => "instFloatOrNone" | .instDistribution => "instDistribution" | .instDistributionOrNone => "instDistributionOrNone"
+  | .gt0 => "gt0" | .oneOf l => "oneOf(" ++ "|".intercalate l ++ ")" | .custom => "custom"
+
+def showField (f : Field) : String :=
+  f.name ++ "~" ++ (match f.default with | none => "<required>" | some d => d.replace " " "") ++ "~" ++
+    ",".intercalate (f.validators.map showValidator) ++ "~" ++ f.converter
+
 def step (line : String) : String :=
   match line.splitOn " " with
   | ["support", c, kind, arg, kw] =>
@@ -79,6 +89,9 @@ def step (line : String) : String :=
       | some d => (match forPrecip d with | none => "none" | some s => showSupport s)
       | none => "bad-op"
   | ["names"] => ",".intercalate names
+  | ["fields", c] => match Deb.ofClassName c with
+      | some d => ";".intercalate ((fieldsOf d).map showField)
+      | none => "bad-op"
   | ["field", c, fld, v] => match Deb.ofClassName c, val? v with
       | some d, some x => (match fieldOf d fld with
           | none => "nofield"
